@@ -199,6 +199,30 @@ func (f *Frame) binop(x *ssa.BinOp) AV {
 		if yConst && cy > 0 && len(inherit) == 0 && f.nonNegHere(ax.a) {
 			return AInt{a: f.modAff(ax.a, cy)}
 		}
+	case token.OR, token.XOR:
+		// bitwise OR (or XOR) of values whose set bits cannot overlap is their sum:
+		// (uint16(hi) << 8) | uint16(lo) with lo < 2^8
+		if len(inherit) == 0 {
+			gran := func(a Aff) int64 { // largest power of two dividing every coefficient and the constant
+				g := int64(0)
+				for _, t := range a.terms {
+					g = gcd(g, t.k)
+				}
+				g = gcd(g, a.c)
+				if g < 0 {
+					g = -g
+				}
+				if g == 0 {
+					return 1 << 40
+				}
+				return g & -g
+			}
+			lx, hx := ax.a.interval()
+			ly, hy := ay.a.interval()
+			if lx >= 0 && ly >= 0 && (hy < gran(ax.a) || hx < gran(ay.a)) {
+				return f.narrowResult(x, ax.a.add(ay.a), inherit, what)
+			}
+		}
 	case token.SHR:
 		if yConst && cy >= 0 && cy < 40 && len(inherit) == 0 && f.nonNegHere(ax.a) {
 			return AInt{a: affSym(f.divSym(ax.a, 1<<uint(cy)))}
